@@ -189,19 +189,41 @@ func c08(c *Ctx) {
 				_, b := fieldOf(info, e)
 				return sameVar(info, b, v)
 			}
-			var deltaVar, newRep types.Object
-			valueStored, repStored := false, false
+			var newRep types.Object
+			gq := ax.FG(fn)
+			// locals with a single definition stand for that definition (delta := …, prev := s.reported[key])
+			resolve := func(e ast.Expr) ast.Expr {
+				for d := 0; d < 3; d++ {
+					id, ok := unparen(e).(*ast.Ident)
+					if !ok {
+						break
+					}
+					def := gq.LocalDef(info.Uses[id])
+					if def == nil {
+						break
+					}
+					e = def
+				}
+				return unparen(e)
+			}
+			isDelta := func(e ast.Expr) bool {
+				be, ok := resolve(e).(*ast.BinaryExpr)
+				if !ok || be.Op != token.SUB || !isValN(resolve(be.X)) {
+					return false
+				}
+				ie, ok := resolve(be.Y).(*ast.IndexExpr)
+				return ok && isField(info, ie.X, fRep) && sameVar(info, ie.Index, k)
+			}
+			deltaSeen, valueStored, repStored := false, false, false
 			ast.Inspect(rng.Body, func(nd ast.Node) bool {
+				if be, ok := nd.(*ast.BinaryExpr); ok && isDelta(be) {
+					deltaSeen = true
+				}
 				as, ok := nd.(*ast.AssignStmt)
 				if !ok || len(as.Lhs) != 1 || len(as.Rhs) != 1 {
 					return true
 				}
-				if be, ok := unparen(as.Rhs[0]).(*ast.BinaryExpr); ok && be.Op == token.SUB && isValN(be.X) {
-					if ie, ok := unparen(be.Y).(*ast.IndexExpr); ok && isField(info, ie.X, fRep) && sameVar(info, ie.Index, k) {
-						deltaVar = objOf(info, as.Lhs[0])
-					}
-				}
-				if fv, _ := fieldOf(info, as.Lhs[0]); fv != nil && fv.Name() == "Value" && deltaVar != nil && sameVar(info, as.Rhs[0], deltaVar) {
+				if fv, _ := fieldOf(info, as.Lhs[0]); fv != nil && fv.Name() == "Value" && isDelta(as.Rhs[0]) {
 					valueStored = true
 				}
 				if ie, ok := unparen(as.Lhs[0]).(*ast.IndexExpr); ok && sameVar(info, ie.Index, k) && isValN(as.Rhs[0]) {
@@ -219,7 +241,7 @@ func c08(c *Ctx) {
 			})
 			fresh := newRep != nil && ax.freshSliceOrMap(fn, newRep)
 			switch {
-			case deltaVar == nil:
+			case !deltaSeen:
 				good, why = false, "no `value.n − reported[key]` with the range key"
 			case !valueStored:
 				good, why = false, "the point's Value is not that difference"
@@ -248,7 +270,7 @@ func c08(c *Ctx) {
 	c.Rule("R5", "E4 provenance", "Builder.Temporality is fed from reader.temporality(kind) of the pipeline's reader, with the instrument's kind", 1)
 	ruleBuilderWiring(c, mx, "R5", []string{"Temporality"})
 
-	c.Rule("R6", "E3 dominance", "observer routing: measures are invoked only for observables registered with this callback", 2)
+	c.Rule("R6", "E3 dominance", "observer routing: measures are invoked only for observables registered with this callback; each reader pipeline is given, and its callbacks write through, that pipeline's own measures", 4)
 	for _, nm := range []string{"observer.ObserveInt64", "observer.ObserveFloat64"} {
 		fn := c.Fn(mx, "R6", nm)
 		if fn == nil {
@@ -287,6 +309,65 @@ func c08(c *Ctx) {
 		}
 		c.Check(good, "R6", "sdk/metric|"+nm+"|measure loop dominated by the registered test", at(mx.M, fn.Pos()), "unregistered observables are ignored",
 			"an observation for an instrument not registered with this callback is recorded: "+why)
+	}
+
+	// per-pipeline routing of observable measures: what is registered with a reader's pipeline, and what that pipeline's
+	// callbacks write through, are the measures this pipeline's own inserter returned (not the instrument's accumulated list)
+	for _, nm := range []string{"(*meter).int64ObservableInstrument", "(*meter).float64ObservableInstrument"} {
+		fn := c.Fn(mx, "R6", nm)
+		if fn == nil {
+			continue
+		}
+		for _, lf := range mx.All {
+			if mx.Outer(lf) != fn {
+				continue
+			}
+			// `in, err := insert.Instrument(…)` with insert the range variable over the resolver's inserters
+			var in types.Object
+			inspectNoLit(lf.Body(), func(nd ast.Node) bool {
+				if as, ok := nd.(*ast.AssignStmt); ok && len(as.Lhs) == 2 && len(as.Rhs) == 1 {
+					if call, ok := unparen(as.Rhs[0]).(*ast.CallExpr); ok {
+						if cf := callee(minfo, call); cf != nil && cf.Name() == "Instrument" {
+							if rv := cf.Type().(*types.Signature).Recv(); rv != nil && typeIs(rv.Type(), sdkMetric, "inserter") {
+								in = objOf(minfo, as.Lhs[0])
+							}
+						}
+					}
+				}
+				return true
+			})
+			if in == nil {
+				continue
+			}
+			n, bad := 0, ""
+			inspectNoLit(lf.Body(), func(nd ast.Node) bool {
+				switch x := nd.(type) {
+				case *ast.CallExpr:
+					if cf := callee(minfo, x); cf != nil && (cf.Name() == "addInt64Measure" || cf.Name() == "addFloat64Measure") && len(x.Args) == 2 {
+						n++
+						if !sameVar(minfo, x.Args[1], in) {
+							bad = cf.Name() + " is given " + exprStr(x.Args[1]) + " at " + mx.M.posStr(x.Pos())
+						}
+					}
+				case *ast.CompositeLit:
+					if tv, ok := minfo.Types[x]; ok && (typeIs(tv.Type, sdkMetric, "int64Observer") || typeIs(tv.Type, sdkMetric, "float64Observer")) {
+						for _, el := range x.Elts {
+							if kv, ok := el.(*ast.KeyValueExpr); ok {
+								if id, _ := kv.Key.(*ast.Ident); id != nil && id.Name == "measures" {
+									n++
+									if !sameVar(minfo, kv.Value, in) {
+										bad = "the callback's observer is given " + exprStr(kv.Value) + " at " + mx.M.posStr(kv.Pos())
+									}
+								}
+							}
+						}
+					}
+				}
+				return true
+			})
+			c.Check(bad == "" && n >= 2, "R6", "sdk/metric|"+nm+"|pipeline registration and callbacks use this pipeline's own measures", at(mx.M, fn.Pos()), itoa(n)+" uses, all of the inserter's result for this pipeline",
+				"measures of other reader pipelines are registered with (or written through by the callbacks of) this pipeline — a callback run for one reader also writes into the other readers' aggregators (stale or doubled values there): "+bad)
+		}
 	}
 
 	c.Rule("R8", "E4 role agreement", "exponential collect methods: positive/negative bucket roles agree in delta and cumulative (= C07.R7)", 2)
